@@ -290,6 +290,12 @@ def check_case(case):
     m2 = Counting()
     sampling.sample(model=m2, results=ThetaHolder(n_thetas=case.get("n2", 1)), seed=seed, n_chains=n_chains, chain_index=chain, n_burnin=case.get("b2", 0), thin=case.get("t2", 1))
     require(np.array_equal(_prefix(m2.rng), own), "rng.depends_only_on_triple", "generator changed with burn-in/thinning/count")
+    # ... including what a model derives from it: sub-generators spawned from the generators of two runs with the same triple agree
+    if hasattr(m.rng, "spawn") and hasattr(m2.rng, "spawn"):
+        kids = [g.spawn(2) for g in (m.rng, m2.rng)]
+        for j_ in range(2):
+            a_, b_ = kids[0][j_].integers(0, 2**62, size=4), kids[1][j_].integers(0, 2**62, size=4)
+            require(np.array_equal(a_, b_), "rng.spawned_children_depend_only_on_triple", "sub-generators spawned from the generators handed to two models for the same (seed, n_chains, chain_index) differ (the second run's generator carries over what the first one spawned)")
     # ... nor on how the run reports its progress: a progress bar, verbose logging
     import contextlib
     import io
